@@ -286,7 +286,7 @@ def run(ctx):
         from vf.draw import draw_cases
         from vf.props import c06
         ctx.clauses_run.append('compiled')
-        cases = draw_cases(base, 10 if ctx.quick else 150, ctx.seed + 5)
+        cases = draw_cases(base, 16 if ctx.quick else 150, ctx.seed + 5)
         for c in cases:
             ctx.record(c, nt(c), ['compiled'] + lab(c))
         c06.run_cases(ctx, 'compiled', cases, check_compiled)
